@@ -16,6 +16,7 @@ var c10Keys = []string{
 	".hidden", "..dots", "x\\y", "%2e%2e/z", "a%2Fb", "_meta", "metadata", ".modtime-resolution", "buckets/bkb/a",
 	"a_b", "a\\b", "x/y", "x_y", "A", // names that collide under flattening ('/', '\\' -> '_') or case folding
 	"dir", "/lead", "lead", "sp ace", "\xc3\xa9", "long/" + strings.Repeat("s", 254),
+	"bkb/x", "bkt/x", "bkc2", // named like buckets
 	"lng/x/" + strings.Repeat("t", 256), // a segment no real directory can hold: refused there, and nothing may stay behind
 }
 
@@ -276,6 +277,11 @@ func runC10(tier string, seed uint64) {
 				// last step (the model has no such operation): Minio's force-delete of a bucket with content.
 				// Whatever it answers, only that bucket may change.
 				fb := buckets[i%2]
+				// (it holds keys that are named like other buckets, and keys below such names)
+				s.Put(fb, buckets[(i+1)%2]+"/x", []byte("below the name of another bucket"), nil)
+				s.Put(fb, "bkc2", []byte("named like another bucket"), nil)
+				s.Put(fb, "bkc.x/n", []byte("named like an object of another bucket"), nil)
+				before = c10Snapshot(s, probe)
 				rq := Req{Method: "DELETE", Path: "/" + fb, Header: [][2]string{{"x-minio-force-delete", "true"}}}
 				r := do(s.h, rq)
 				after := c10Snapshot(s, probe)
